@@ -360,28 +360,6 @@ theorem growth_size_phase_partial (p : GrowthParams Rat) (sibs : List RStat) (c 
     (`protection_le_usage` shows the model's protection has this property) -/
 def WF (sibs : List RStat) : Prop := ∀ s ∈ sibs, 0 ≤ s.cur ∧ 0 ≤ s.avg ∧ s.prot ≤ s.cur
 
-theorem growthRatio_nonneg (s : RStat) (hc : 0 ≤ s.cur) (ha : 0 ≤ s.avg) : (0 : Rat) ≤ growthRatio s := by
-  simp only [growthRatio, memoryGrowth, Narrow.narrow, id, Num.zero, Num.div, Num.ofInt]
-  split
-  · exact Rat.le_refl
-  · rename_i hne
-    have hpos : (0 : Rat) < (s.avg : Rat) := by exact_mod_cast (show 0 < s.avg by omega)
-    rw [← Rat.not_lt, Rat.div_lt_iff hpos, Rat.not_lt, Rat.zero_mul]
-    exact_mod_cast hc
-
-/-- first tuple component is 0 for every equally preferred sibling when no size-eligible one has positive effective usage -/
-theorem key1_zero (p : GrowthParams Rat) (sibs : List RStat) (hwf : WF sibs) (pref : Int)
-    (hno : ∀ s ∈ sibs, s.pref = pref → sizeEligible (growthCtx Rat p sibs) s = true → s.eff ≤ 0)
-    (s : RStat) (hs : s ∈ sibs) (hp : s.pref = pref) : (growthKey p (growthCtx Rat p sibs) s).1 = 0 := by
-  simp only [growthKey]
-  split
-  · rename_i he
-    have h1 := hno s hs hp he
-    have h2 := (hwf s hs).2.2
-    simp only [Stat.eff, effectiveUsage] at h1 ⊢
-    omega
-  · rfl
-
 /-- Phase 2: when no equally preferred size-eligible cgroup has positive effective usage (in particular when
     none is size-eligible) and some equally preferred cgroup is growth-eligible, the first choice is
     growth-eligible and has the largest usage / moving-average ratio among the equally preferred
@@ -453,6 +431,41 @@ theorem growth_fallback_phase (p : GrowthParams Rat) (sibs : List RStat) (hwf : 
   · omega
   · exact absurd hS Rat.lt_irrefl
   · exact hS
+
+/-- Percentile cut: with `growing_size_percentile = P` in (0, 100) and `n` siblings, the cut is the effective usage of
+    the `k`-th largest sibling, `k = ⌈n (100 − P) / 100⌉`: it is some sibling's effective usage, fewer than `k`
+    siblings are strictly above it and at least `k` reach it - so exactly the top `k` by size (with ties) pass. -/
+theorem growth_percentile_cut (p : GrowthParams Rat) (sibs : List RStat) (hn : 0 < sibs.length)
+    (hP : 0 < p.percentile) (hP100 : p.percentile < 100) :
+    let m := (growthCtx Rat p sibs).minEff
+    let k := nthIndex sibs.length p.percentile + 1
+    (∃ s ∈ sibs, s.eff = m) ∧
+    (sibs.filter fun s => decide (m < s.eff)).length < k ∧
+    k ≤ (sibs.filter fun s => decide (m ≤ s.eff)).length ∧
+    (sibs.length : Int) * (100 - p.percentile) ≤ (k : Int) * 100 ∧
+    ((k : Int) - 1) * 100 < (sibs.length : Int) * (100 - p.percentile) := by
+  intro m k
+  have hlen : (sibs.map Stat.eff).length = sibs.length := List.length_map _
+  have hcut := growthMinEff_cut p.percentile (sibs.map Stat.eff) (by omega) hP hP100
+  have hm : m = growthMinEff p.percentile (sibs.map Stat.eff) := rfl
+  rw [← hm, hlen] at hcut
+  obtain ⟨hmem, hgt, hge⟩ := hcut
+  obtain ⟨hc1, hc2⟩ := nthIndex_ceil sibs.length p.percentile hn hP hP100
+  refine ⟨?_, ?_, ?_, hc1, ?_⟩
+  · obtain ⟨s, hs, he⟩ := List.mem_map.1 hmem; exact ⟨s, hs, he⟩
+  · rw [List.filter_map, List.length_map] at hgt
+    show _ < nthIndex sibs.length p.percentile + 1
+    exact Nat.lt_succ_of_le hgt
+  · rw [List.filter_map, List.length_map] at hge
+    exact hge
+  · show (((nthIndex sibs.length p.percentile + 1 : Nat) : Int) - 1) * 100 < _
+    have : (((nthIndex sibs.length p.percentile + 1 : Nat) : Int) - 1) = ((nthIndex sibs.length p.percentile : Nat) : Int) := by omega
+    rw [this]; exact hc2
+
+/-- `growing_size_percentile = 0` switches the cut off (threshold 0; effective usage is never negative). -/
+theorem growth_percentile_zero (p : GrowthParams Rat) (sibs : List RStat) (hP : p.percentile = 0) :
+    (growthCtx Rat p sibs).minEff = 0 := by
+  simp [growthCtx, growthMinEff, hP]
 
 /-- Everything is ranked: `kill_by_memory_size_or_growth` removes nothing. -/
 theorem growth_ranks_all (p : GrowthParams Rat) (sibs : List RStat) (out : List (Entry (Int × Rat × Int)))
